@@ -145,6 +145,9 @@ func verifyFunc(prog *Program, fi *FuncInfo, con *FuncContract) (rep *FuncReport
 	}
 	// global axioms of the contract files
 	for _, ax := range prog.Contracts.Axioms {
+		if ax.Pkg != "" && ax.Pkg != fi.Pkg.Types.Name() {
+			continue // an axiom about the tables of another package
+		}
 		genv := &SpecEnv{x: x, st: st, old: st, bound: map[string]Term{}, names: map[string]Term{}, pkg: fi.Pkg.Types}
 		if f, ok := x.clause(ax, genv); ok {
 			x.ctx.decl("(assert " + f + ")")
